@@ -4,6 +4,7 @@ from __future__ import annotations
 import random
 
 from ..core import Family
+from ..sim import pump as P
 from ..sim import srv as sim
 from .pumpfam import PumpFamily, gen_pump_case
 from .srvfam import ConnFamily, gen_resp
@@ -148,10 +149,35 @@ class PumpStall(PumpFamily):
     quick_n = 120
     thorough_n = 2000
 
+    # what a peer has sent when it goes silent after the handshake: nothing, part of a request line, part of an upload body
+    SILENT = [b"", b"gemini://loc", b"gemini://localhost/x", b"titan://localhost/f;size=10\r\nabc"]
+
     def gen(self, rng, n):
-        for i in range(n):
+        # every client certificate the pump knows - none, the readable ones, and the one OpenSSL accepts but `cryptography` cannot
+        # parse - then silence at each of the points above; for the unreadable one also a complete request (whatever the server
+        # does with such a peer, it may not keep the connection for ever)
+        fixed = []
+        for cert in (None, 0, 1, 2, 3, 4, P.UNREADABLE):
+            for req in self.SILENT + ([b"gemini://localhost/x\r\n"] if cert == P.UNREADABLE else []):
+                for cuts in (0, 3):
+                    c = gen_pump_case(random.Random(f"{cert}/{req!r}/{cuts}"))
+                    c.update({"cert": cert, "app": [req.hex()] if req else [], "close_notify": False, "post": [["t"]], "incomplete": True,
+                              "up": True, "maxcuts": cuts, "fatal": True, "stall": None, "plaintext": None})
+                    if req.endswith(b"\r\n"):
+                        # a complete request is answered at once by a handler that returns its response: nothing is left pending
+                        c.update({"mw": False, "handler": ["s", [20, "text/gemini", ["s", "ok"]]]})
+                    if cuts and cert in (None, 2, P.UNREADABLE):
+                        c["wallstep"] = 45 if cert is None else -3600
+                    fixed.append(c)
+        mine = list(self.share(fixed))
+        for c in mine:
+            yield c
+        for i in range(max(0, n - len(mine))):
             c = gen_pump_case(rng)
             k = i % 3
+            c["fatal"] = True
+            if rng.random() < 0.15:
+                c["cert"] = P.UNREADABLE
             if k == 0:
                 c["stall"] = [rng.choice([1, 2]), rng.choice([0.0, 0.3, 0.5, 0.9, 0.99])]
             else:
@@ -166,6 +192,13 @@ class PumpStall(PumpFamily):
                 c["wallstep"] = rng.choice([-86400, -3600, -45, 45, 3600])
             yield c
 
+    def model_obs(self, case, obs):
+        # the pump model knows nothing about certificates that cannot be parsed (it would answer such a peer like any other); what
+        # the property demands of these cases is stated by the oracle alone
+        if case.get("cert") == P.UNREADABLE:
+            return None
+        return super().model_obs(case, obs)
+
     def oracle(self, case, obs):
         if case.get("stall"):
             if not obs["tcpclosed"]:
@@ -174,6 +207,19 @@ class PumpStall(PumpFamily):
         if case.get("incomplete"):
             plain = bytes.fromhex(obs["plain"]) if obs["plain"] != "-" else b""
             pr = sim.parse_response(plain)
+            sent = b"".join(bytes.fromhex(a) for a in case.get("app", []))
+            if case.get("cert") == P.UNREADABLE:
+                # a certificate the server cannot read: it may drop the peer as soon as the handshake ends (then there is no silent
+                # peer left to time out), but a peer that is still connected when the time is up gets the 40 and is disconnected
+                if not obs["tcpclosed"]:
+                    return ("silent-kept", f"peer presenting a client certificate that OpenSSL accepts and cryptography cannot parse, silent after "
+                                           f"the TLS handshake having sent {sent!r}: still connected after handshake + request timeout "
+                                           f"(decrypted by the peer: {plain[:40]!r}, escaped from data_received: {obs['exc']})")
+                early = obs.get("closed_at") is not None and "i:t" in obs["pevs"] and obs["closed_at"] < obs["pevs"].index("i:t")
+                if not early and (pr is None or pr[0] != 40):
+                    return ("silent-kept", f"peer with an unreadable client certificate, silent having sent {sent!r}, was kept until the timeout "
+                                           f"and then dropped without the 40 response: {plain[:40]!r}")
+                return None
             if not obs["tcpclosed"] or pr is None or pr[0] != 40:
                 return ("silent-kept", f"silent peer with an incomplete request after the handshake: closed={obs['tcpclosed']} response={plain[:40]!r}")
         return None
